@@ -194,19 +194,81 @@ type c17PipeRunner struct {
 	wclosed     bool
 	cancelled   bool
 	dead        bool
-	baseline    int // runtime.NumGoroutine() before the pipe was created
+	baseline    c17Base // goroutines before the pipe was created
 }
 
-// c17Settle waits (up to 10 s) for the goroutine count to come back to the baseline.
-func c17Settle(baseline int) bool {
-	for i := 0; i < 2000; i++ {
-		if runtime.NumGoroutine() <= baseline {
+// c17DawgsGoroutines counts the goroutines that are executing (or parked in) code of the packages under test:
+// a stack dump filtered on dawgs/traversal and dawgs/util/channels frames. Goroutines of the harness itself,
+// of the runtime or of the race detector do not count, so the oracle is insensitive to them.
+func c17DawgsGoroutines() (int, string) {
+	buf := make([]byte, 1<<20)
+	for {
+		n := runtime.Stack(buf, true)
+		if n < len(buf) {
+			buf = buf[:n]
+			break
+		}
+		buf = make([]byte, 2*len(buf))
+	}
+	count, site := 0, ""
+	for _, g := range strings.Split(string(buf), "\n\n") {
+		if !strings.Contains(g, "github.com/specterops/dawgs/traversal.") && !strings.Contains(g, "github.com/specterops/dawgs/util/channels.") {
+			continue
+		}
+		count++
+		if site == "" {
+			for _, line := range strings.Split(g, "\n") {
+				line = strings.TrimSpace(line)
+				if strings.Contains(line, ".go:") && (strings.Contains(line, "/util/channels/") || strings.Contains(line, "/traversal/")) {
+					f := strings.Fields(line)[0]
+					if i := strings.Index(f, "/util/channels/"); i >= 0 {
+						site = f[i+1:]
+					} else if i := strings.Index(f, "/traversal/"); i >= 0 {
+						site = f[i+1:]
+					}
+					break
+				}
+			}
+		}
+	}
+	return count, site
+}
+
+type c17Base struct{ all, dawgs int }
+
+// c17Baseline is taken before the code under test starts anything.
+func c17Baseline() c17Base {
+	n, _ := c17DawgsGoroutines()
+	return c17Base{all: runtime.NumGoroutine(), dawgs: n}
+}
+
+// c17Settle waits (up to 10 s, polling) until no more goroutines run dawgs traversal/channels code than before.
+// Fast path: the total goroutine count is back; otherwise the filtered stack dump decides.
+func c17Settle(b c17Base) bool {
+	// the first two leaks of a process are established with the full 10 s bound; after that the run is failing
+	// anyway (a healthy tree never leaks once) and the bound shrinks so that the remaining cases still run
+	rounds := 2000
+	if c17Leaks.Load() >= 2 {
+		rounds = 60
+	}
+	for i := 0; i < rounds; i++ {
+		if runtime.NumGoroutine() <= b.all {
 			return true
+		}
+		if i >= 2 {
+			if n, _ := c17DawgsGoroutines(); n <= b.dawgs {
+				return true
+			}
 		}
 		time.Sleep(5 * time.Millisecond)
 	}
+	c17Leaks.Add(1)
 	return false
 }
+
+var c17Leaks atomic.Int64
+
+func c17LeakSite() string { _, s := c17DawgsGoroutines(); return s }
 
 func (s c17PipeSuite) NewRunner(stats *Stats) Runner { return &c17PipeRunner{conc: s.conc, stats: stats} }
 
@@ -268,7 +330,7 @@ func (r *c17PipeRunner) Step(t []string, raw string) string {
 		if r.cancel != nil {
 			r.cancel()
 		}
-		r.baseline = runtime.NumGoroutine()
+		r.baseline = c17Baseline()
 		r.ctx, r.cancel = context.WithCancel(context.Background())
 		r.w, r.r = channels.BufferedPipe[int](r.ctx)
 		r.outstanding, r.wclosed, r.cancelled, r.dead = 0, false, false, false
@@ -672,10 +734,14 @@ func (r *c17BFRunner) run(workers int, fault string, k int, seed uint64, mode st
 		lastActive atomic.Int64
 		db         = &c17DB{tx: &c17Tx{}}
 	)
+	// database ids of the synthetic segments come from one of the id alphabets (collisions mod 2^32 / 2^16, ids >= 2^63)
+	al := c17IDAlphabet(seed % c17Alphabets)
+	index := make(map[graph.ID]int, len(nodes))
 	for i := range nodes {
-		nodes[i] = graph.NewNode(graph.ID(i), graph.NewProperties(), kind)
+		nodes[i] = graph.NewNode(graph.ID(al.id(i)), graph.NewProperties(), kind)
+		index[nodes[i].ID] = i
 	}
-	baseline := runtime.NumGoroutine()
+	baseline := c17Baseline()
 	ctx, cancel := context.WithCancel(context.Background())
 	defer cancel()
 	noise := func(id int) {
@@ -691,7 +757,7 @@ func (r *c17BFRunner) run(workers int, fault string, k int, seed uint64, mode st
 	driver := func(dctx context.Context, tx graph.Transaction, seg *graph.PathSegment) ([]*graph.PathSegment, error) {
 		inflight.Add(1)
 		defer func() { lastActive.Store(time.Now().UnixNano()); inflight.Add(-1) }()
-		id := int(seg.Node.ID)
+		id := index[seg.Node.ID]
 		n := int(started.Add(1))
 		callLock.Lock()
 		calls = append(calls, id)
@@ -719,7 +785,7 @@ func (r *c17BFRunner) run(workers int, fault string, k int, seed uint64, mode st
 		}
 		out := make([]*graph.PathSegment, 0, len(tree.kids[id]))
 		for _, c := range tree.kids[id] {
-			rel := graph.NewRelationship(graph.ID(c), graph.ID(id), graph.ID(c), nil, kind)
+			rel := graph.NewRelationship(graph.ID(al.id(c)), nodes[id].ID, nodes[c].ID, nil, kind)
 			if mode == "descend" {
 				out = append(out, seg.Descend(nodes[c], rel))
 			} else {
@@ -787,9 +853,16 @@ wait:
 			break wait
 		}
 	}
-	cancel()
-	// goroutines must settle back (the pipe goroutine exits asynchronously after the cancel)
+	// "No goroutine is left behind": the caller's context is NOT cancelled here — a server's long-lived context
+	// stays alive after BreadthFirst returned, with or without an error. Everything the traversal started
+	// (workers, the pipe pump) must be gone within the bound on its own. Only afterwards is the context
+	// cancelled, to clean up whatever a defective tree left running.
 	settled := c17Settle(baseline)
+	leakedAt := ""
+	if !settled {
+		leakedAt = c17LeakSite()
+	}
+	cancel()
 	ret := "ok"
 	switch {
 	case hang:
@@ -823,7 +896,8 @@ wait:
 	}
 	tail := "settled"
 	if !settled {
-		tail = fmt.Sprintf("leak=%d", runtime.NumGoroutine()-baseline)
+		r.stats.Inc("branch.bf.goroutine_leak")
+		tail = "leak@" + leakedAt
 	}
 	if r.trace {
 		return fmt.Sprintf("ret=%s calls=%s %s", ret, csvInts(seq), tail)
